@@ -2,8 +2,10 @@
 //! iterators, wakers, CBox) with a Rust party and a "C party" that only knows the published layout.
 
 mod arc;
+mod cbox;
 mod cstr;
 mod cview;
+mod feed;
 mod vec;
 mod waker;
 
@@ -12,7 +14,7 @@ mod waker;
 static GLOBAL: simcore::alloc::SimAlloc = simcore::alloc::SimAlloc;
 
 fn main() {
-    let engines: Vec<&dyn simcore::Engine> = vec![&arc::ArcEngine, &vec::VecEngine, &cstr::CStrEngine, &waker::WakerEngine];
+    let engines: Vec<&dyn simcore::Engine> = vec![&arc::ArcEngine, &vec::VecEngine, &cstr::CStrEngine, &waker::WakerEngine, &feed::FeedEngine, &cbox::CBoxEngine];
     let code = simcore::worker::worker_main(&engines);
     if code != 0 {
         std::process::exit(code);
